@@ -7,16 +7,16 @@ LEVEL = "model_checking"
 CONFIGS = [("default", "", {}), ("purego", "purego", {}), ("noadx", "", {"GODEBUG": "cpu.adx=off,cpu.bmi2=off"})]
 
 
-def validate_parallel(w, lines, nshards=14):
+def validate_parallel(w, lines, nshards=14, module="Trace_FieldMachine", sub="v"):
     """split independent lines over several TLC JVMs"""
     shards = [lines[i::nshards] for i in range(nshards)]
     def one(i):
-        d = os.path.join(w, "v%d" % i)
+        d = os.path.join(w, "%s%d" % (sub, i))
         os.makedirs(d, exist_ok=True)
         C.stage_specs(d, "C12")
         if not shards[i]:
             return [], 0
-        bad, r = C.validate_lines(d, "Trace_FieldMachine", "Lines.cfg", shards[i], heap="2g", timeout=3000)
+        bad, r = C.validate_lines(d, module, "Lines.cfg", shards[i], heap="2g", timeout=3000)
         return [shards[i][b] for b in bad], r.distinct
     with ThreadPoolExecutor(max_workers=nshards) as ex:
         res = list(ex.map(one, range(nshards)))
@@ -29,12 +29,17 @@ def run(tier, rep, replay=None):
     thorough = tier == "thorough"
     C.tlc_must(C.tlc(w, "MC_ToyField", "Empty.cfg", timeout=900), "MC_ToyField")
     lines = []
+    tlines = []
     n = 3000 if thorough else 260
     for label, tags, env in CONFIGS:
         drv = C.go_build_driver(w, "c12", tags=tags)
         tp = os.path.join(w, "t-%s.ndjson" % label)
-        C.run([drv, "-out", tp, "-seed", str(C.SEED), "-n", str(n), "-impl", label], env=dict(os.environ, **env), timeout=3000, what="c12 driver " + label)
+        args = [drv, "-out", tp, "-seed", str(C.SEED), "-n", str(n), "-impl", label]
+        if label == "default":       # the tower fields have one (portable) implementation
+            args += ["-tower", os.path.join(w, "tower.ndjson"), "-ntower", "40" if thorough else "5"]
+        C.run(args, env=dict(os.environ, **env), timeout=3000, what="c12 driver " + label)
         lines += C.read_ndjson(tp)
+    tlines = C.read_ndjson(os.path.join(w, "tower.ndjson"))
     for pkg in INTREE:
         for label, tags, env in CONFIGS:
             tb = C.go_build_intree(w, pkg, tags=tags)
@@ -43,6 +48,19 @@ def run(tier, rep, replay=None):
                   timeout=3000, what="in-tree recorder %s %s" % (pkg, label))
             if os.path.exists(tp):            # absent when the package has no such back-end under this build tag (P-384 under purego)
                 lines += C.read_ndjson(tp)
+    tbad, tstates = validate_parallel(w, tlines, module="Trace_Tower", sub="tw")
+    for ln in tbad:
+        rep.violation("tower:%s:%s:%s" % (ln["f"], ln["op"], ln["alias"]), {"observed": {k: v for k, v in ln.items() if k not in ("qa", "qb")}, "explain": "tower-field result is not the one the reduction polynomials give (TowerMachine.tla), or an operand changed"})
+    if tlines:
+        gm = [l for l in tlines if l["op"] == "mul" and l["f"] == "fp6" and l not in tbad]
+        if gm:
+            x = copy.deepcopy(gm[0])
+            z = x["z"][3]
+            x["z"][3] = ([(z[0] + 1) % 4096] + z[1:]) if z else [1]
+            b2, _ = C.validate_lines(w, "Trace_Tower", "Lines.cfg", [x])
+            if b2 != [0]:
+                raise C.Infra("tower binding canary accepted")
+    rep.add(tower_events=len(tlines), tower_ops=sorted({l["f"] + "." + l["op"] for l in tlines}))
     bad, states = validate_parallel(w, lines)
     for ln in bad:
         rep.violation("field:%s:%s:%s" % (ln["f"], ln["op"], ln["impl"].split()[-1]), {"observed": ln, "explain": "result is not congruent to the mathematical result / a non-destination register changed / wrong canonical form"})
@@ -70,7 +88,7 @@ def run(tier, rep, replay=None):
 INTREE = ["ecc/p384", "ecc/fourq", "dh/csidh", "sign/ed25519"]
 
 MANIFEST = {
- "text": "FieldMachine.tla states, per operation, what a finite-field step must satisfy (destination congruent to the mathematical result for any admissible representative, canonical forms for reductions / zero and equality tests / byte export, all other registers unchanged bit for bit, square-root and non-residue certificates, inverse), with the moduli as constants; the same relations are checked exhaustively on toy primes of the same shapes. Recorders drive fp25519, fp448, Goldilocks scalars, BLS12-381 Fp and Scalar, Prio3 fp64/fp128 and the four group scalar fields (and, in package, P-384, FourQ, CSIDH, Ed25519 scalar reduction) through all operations with the structured whole-element operand set (neighbours of multiples of p, limb-boundary powers of two, maxima; full cross product for mul/add/sub), in all aliasing patterns, under three back-end configurations (default asm, purego, BMI2/ADX off), and TLC checks every recorded congruence with multi-precision BigNat arithmetic and untrusted quotient hints.",
- "note": "Sampling, boundary-biased: ~260 events per field adapter and configuration in quick, 3000 in thorough. Tower fields Fp2/Fp6/Fp12 are covered through C13's pairing/group relations, not here.",
+ "text": "TowerMachine.tla defines Fp2 = Fp[u]/(u^2+1), Fp6 = Fp2[v]/(v^3-(1+u)), Fp12 = Fp6[w]/(w^2-v) of BLS12-381 from their reduction polynomials and computes the expected coefficients of add / sub / neg / mul / sqr / inv / conjugation / multiplication by the non-residue over the integers (positive and negative parts, so no subtraction); TLC checks every recorded coefficient of ecc/bls12381/ff operations (structured coefficients 0, 1, p-1, p-k, (p-1)/2, 2^(64k), random; all aliasing patterns) with untrusted quotient hints and that operands are unchanged. FieldMachine.tla states, per operation, what a finite-field step must satisfy (destination congruent to the mathematical result for any admissible representative, canonical forms for reductions / zero and equality tests / byte export, all other registers unchanged bit for bit, square-root and non-residue certificates, inverse), with the moduli as constants; the same relations are checked exhaustively on toy primes of the same shapes. Recorders drive fp25519, fp448, Goldilocks scalars, BLS12-381 Fp and Scalar, Prio3 fp64/fp128 and the four group scalar fields (and, in package, P-384, FourQ, CSIDH, Ed25519 scalar reduction) through all operations with the structured whole-element operand set (neighbours of multiples of p, limb-boundary powers of two, maxima; full cross product for mul/add/sub), in all aliasing patterns, under three back-end configurations (default asm, purego, BMI2/ADX off), and TLC checks every recorded congruence with multi-precision BigNat arithmetic and untrusted quotient hints.",
+ "note": "Sampling, boundary-biased: ~260 events per field adapter and configuration in quick, 3000 in thorough. Tower fields: 22 operations x 5 aliasing patterns per run in quick (x 8 in thorough); Kyber / Dilithium Z_q reductions are evaluated over their complete domains in C03 / C04.",
  "technique": "TLA+ BigNat relations checked by TLC on recorded real-code operations (trace validation with untrusted hints); toy-prime exhaustive check of the relations",
 }
